@@ -41,6 +41,7 @@ inductive X
   | bin (k : XOp) (l r : X)
   | ite (c a b : X)                   -- IF c THEN a ELSE b
   | call (f : String) (args : List X)
+  | nothing                           -- the PEG's empty atom (IR only): `-a` is `"" - a`, `a*-b` is `(a * "") - b`
 deriving Repr, Inhabited
 
 /-! ### Token sequence of a tree -/
@@ -56,6 +57,7 @@ def flat : X → List XTok
   | .ite c a b => .kif :: (flat c ++ .kthen :: (flat a ++ .kelse :: flat b))
   | .call f [] => [.fn f]
   | .call f (a :: as) => .fn f :: .lp :: (flatArgs (a :: as) ++ [.rp])
+  | .nothing => []
 def flatArgs : List X → List XTok
   | [] => []
   | [e] => flat e
@@ -181,6 +183,7 @@ def gen (c : Cfg) (init : Bool) : X → List Tok
   | .call f args =>
     let gs := genL c (initMode init f) args
     substToks (nthD [.name "MISSING"] gs) (fnToks c f args.length)
+  | .nothing => []
 def genL (c : Cfg) (init : Bool) : List X → List (List Tok)
   | [] => []
   | e :: es => gen c init e :: genL c init es
@@ -208,6 +211,7 @@ def trans (c : Cfg) (P : XPrec) (init : Bool) : X → Py
   | .call f args =>
     let ts := transL c P (initMode init f) args
     subst (nthD (.name "MISSING") ts) (fnShape c f args.length)
+  | .nothing => .name "NOTHING"
 def transL (c : Cfg) (P : XPrec) (init : Bool) : List X → List Py
   | [] => []
   | e :: es => trans c P init e :: transL c P init es
@@ -224,6 +228,7 @@ def known (c : Cfg) : X → Bool
   | .bin _ l r => known c l && known c r
   | .ite cnd a b => known c cnd && known c a && known c b
   | .call f args => (findFn c f args.length).isSome && knownL c args
+  | .nothing => true
 def knownL (c : Cfg) : List X → Bool
   | [] => true
   | e :: es => known c e && knownL c es
@@ -241,6 +246,7 @@ def XWL (P : XPrec) : X → Bool
   | .bin k l r => XWL P l && XWL P r && decide (xlvl P l ≥ P.ldem k) && decide (xlvl P r ≥ P.rdem k)
   | .ite cnd a b => XWL P cnd && XWL P a && XWL P b
   | .call _ args => XWLL P args
+  | .nothing => false                 -- never part of a reading
 def XWLL (P : XPrec) : List X → Bool
   | [] => true
   | e :: es => XWL P e && XWLL P es
@@ -350,6 +356,7 @@ def xsexp : X → String
   | .bin k l r => s!"({xopName k} {xsexp l} {xsexp r})"
   | .ite c a b => s!"(if {xsexp c} {xsexp a} {xsexp b})"
   | .call f args => s!"(call {f}{xsexpL args})"
+  | .nothing => "(nothing)"
 def xsexpL : List X → String
   | [] => ""
   | e :: es => " " ++ xsexp e ++ xsexpL es
@@ -416,13 +423,14 @@ def xtokOfWord (w : String) : Option XTok :=
     | _ => none
 
 mutual
-/-- prefix words:  n <s> | i <s> | p e | g e | t e | b <op> l r | q c a b | c <f> <n> a1 … an -/
+/-- prefix words:  n <s> | i <s> | e (nothing) | p e | g e | t e | b <op> l r | q c a b | c <f> <n> a1 … an -/
 def readX : Nat → List String → Option (X × List String)
   | 0, _ => none
   | fuel + 1, ws =>
     match ws with
     | "n" :: s :: r => some (.num s, r)
     | "i" :: s :: r => some (.id s, r)
+    | "e" :: r => some (.nothing, r)
     | "p" :: r => match readX fuel r with
       | some (e, r') => some (.paren e, r')
       | none => none
